@@ -20,6 +20,7 @@ import WuffsVerif.Proof.Flate.Total5
 import WuffsVerif.Proof.Flate.Single
 import WuffsVerif.Proof.Flate.Walk2
 import WuffsVerif.Proof.Flate.FixedCut2
+import WuffsVerif.Proof.Flate.Assembly
 
 namespace WuffsVerif.Props.C16
 open WuffsVerif.Flate WuffsVerif.Flate.Cut WuffsVerif.Flate.Spec
@@ -416,6 +417,25 @@ theorem cut_prefix_fixed_block_partial (w : Bool) (s T : Bytes) (n0 : Nat) (limi
     Spec.inflate (r.encoded.extract 0 r.encodedLen) = some (T.extract 0 r.decodedLen, r.encodedLen) ∧
     r.decodedLen ≤ T.size ∧ (w = true → r.written = T.extract 0 r.decodedLen) :=
   Cut.Cut_fixed_block w s T n0 limit r hs h0 h12 hT h
+
+/-- **cut_prefix for every valid stream of stored and fixed-Huffman blocks** — any number of blocks in any
+order, at any bit alignment (`_partial`: dynamic blocks are missing; `hnd` says that no block the spec
+decoder reaches — `RReach s n p out`: after `n` complete non-final blocks it stands at bit `p` — has
+block type 2).  For every limit and with or without a writer, a successful `Cut` yields a complete
+DEFLATE stream in the first `encodedLen` bytes of the buffer that decodes to exactly the first
+`decodedLen` bytes of the original output, which is also what the writer receives.  The proof is the
+block loop of `cut` in lock-step with the block loop of the spec decoder (`Cut.cutLoop_walk`): a block
+that fits is walked completely (`BlockSim.nil`, the walk `RReach` grows); otherwise the stream ends in
+this block — a stored block is shortened and its LEN/NLEN rewritten, a Huffman block gets an
+end-of-block code at the last checkpoint — or just before it (the previous block is made final), or
+`cutSingleBlock` re-encodes the beginning; `Cut.good_final` replays the kept blocks on the cut buffer. -/
+theorem cut_prefix_nodynamic_partial (w : Bool) (s T : Bytes) (n0 : Nat) (limit : Int) (r : CutResult)
+    (hs : Spec.inflate s = some (T, n0)) (hT : T.size < 2147483648)
+    (hnd : ∀ n p out, Cut.RReach s n p out → Spec.bitsLE s (p + 1) 2 ≠ 2)
+    (h : Cut.Cut w s limit = .ok r) :
+    Spec.inflate (r.encoded.extract 0 r.encodedLen) = some (T.extract 0 r.decodedLen, r.encodedLen) ∧
+    r.decodedLen ≤ T.size ∧ (w = true → r.written = T.extract 0 r.decodedLen) :=
+  Cut.Cut_nodyn w s T n0 limit r hs hT hnd h
 
 /-- non-vacuity: `4b 04 00` (the letter "a" as one final fixed-Huffman block) meets the hypotheses. -/
 example : Spec.bitAt #[0x4b, 0x04, 0x00] 0 = 1 ∧ Spec.bitsLE #[0x4b, 0x04, 0x00] 1 2 = 1 := by decide
